@@ -164,6 +164,20 @@ SCRIPTS = {
         dict(max_connections=1),
         [("open", "r1", "http://a.test/1"), ("content", "r1"), ("readall", "r1"), ("content", "r1"), ("close", "r1"), ("close", "r1"), ("state",)],
     ),
+    # what the pool and the connection report BETWEEN the steps of the response protocol: after the head,
+    # in the middle of the body, when the body has been read to the end but the response is still open
+    "states-between-read-and-close": (
+        dict(max_connections=1),
+        [("open", "r1", "http://a.test/big1"), ("state",), ("read", "r1", 1), ("state",), ("readall", "r1"), ("state",), ("close", "r1"), ("state",),
+         ("open", "r2", "http://a.test/2"), ("content", "r2"), ("readall", "r2"), ("state",), ("content", "r2"), ("close", "r2"), ("state",)],
+    ),
+    # a second request while the first response is fully read but NOT closed: the pool is at its limit,
+    # a zero pool timeout fails at once; after the close it goes through on the same connection
+    "nested-open-while-response-held": (
+        dict(max_connections=1),
+        [("open", "r1", "http://a.test/1"), ("readall", "r1"), ("open", "r2", "http://a.test/2", {"timeout": {"pool": 0}}), ("state",), ("close", "r1"),
+         ("open", "r3", "http://a.test/3", {"timeout": {"pool": 0}}), ("readall", "r3"), ("close", "r3"), ("state",)],
+    ),
     "idle-server-close-then-reuse": (
         dict(max_connections=1),
         [("open", "r1", "http://a.test/1"), ("readall", "r1"), ("close", "r1"), ("peerclose",), ("open", "r2", "http://a.test/2"), ("readall", "r2"), ("close", "r2"), ("state",)],
@@ -193,7 +207,7 @@ def script_sync(pool_kwargs, script, fault=None):
             try:
                 if k == "open":
                     u = st[2]
-                    resp[st[1]] = pool.handle_request(httpcore.Request("GET", u, headers=[(b"Host", httpcore.URL(u).host), (b"X-Tok", st[1].encode())]))
+                    resp[st[1]] = pool.handle_request(httpcore.Request("GET", u, headers=[(b"Host", httpcore.URL(u).host), (b"X-Tok", st[1].encode())], extensions=dict(st[3]) if len(st) > 3 else {}))
                     log.append(_step_log(k, st[1], "ok", n=resp[st[1]].status))
                 elif k == "read":
                     it = its.setdefault(st[1], resp[st[1]].iter_stream())
@@ -253,7 +267,7 @@ def script_async(pool_kwargs, script, fault=None):
             try:
                 if k == "open":
                     u = st[2]
-                    resp[st[1]] = await pool.handle_async_request(httpcore.Request("GET", u, headers=[(b"Host", httpcore.URL(u).host), (b"X-Tok", st[1].encode())]))
+                    resp[st[1]] = await pool.handle_async_request(httpcore.Request("GET", u, headers=[(b"Host", httpcore.URL(u).host), (b"X-Tok", st[1].encode())], extensions=dict(st[3]) if len(st) > 3 else {}))
                     log.append(_step_log(k, st[1], "ok", n=resp[st[1]].status))
                 elif k == "read":
                     it = its.setdefault(st[1], resp[st[1]].aiter_stream().__aiter__())
@@ -299,7 +313,18 @@ def script_async(pool_kwargs, script, fault=None):
                     log.append(_step_log(k, st[1] if len(st) > 1 else "", type(e).__name__))
             except BaseException as e:  # noqa
                 log.append(_step_log(k, st[1] if len(st) > 1 else "", type(e).__name__))
+        # (body iterators the script left unfinished are finalised inside the loop, not by the
+        #  garbage collector after it has gone; nothing is logged for this)
+        nlog, nops = len(log), len(net.ops)
+        for it in list(its.values()):
+            try:
+                await it.aclose()
+            except BaseException:  # noqa
+                pass
+        del log[nlog:]
+        tail_ops.append(nops)
 
+    tail_ops = []
     t = loop.create_task(main())
     seqmap = {}
     for _ in range(50000):
@@ -320,6 +345,8 @@ def script_async(pool_kwargs, script, fault=None):
             pass
     undo()
     loop.shutdown()
+    if tail_ops:
+        net.ops = net.ops[: tail_ops[0]]
     return log + op_log(net)
 
 
@@ -357,6 +384,15 @@ def unasync_diff():
     for fn in sorted(os.listdir(sdir)):
         if fn.endswith(".py") and not os.path.exists(os.path.join(adir, fn)):
             diffs.append((fn, 0, "extra file in _sync", ""))
+    # the translator itself: "the mechanical DE-ASYNC translation" - every rule of its table rewrites an
+    # async construct (keyword, Async* name, a-prefixed protocol method, async runtime / backend name);
+    # a rule that rewrites anything else changes what the sync tree DOES, not how it waits
+    import re
+
+    asyncish = re.compile(r"async|await|Async|anyio|trio|AutoBackend|__a(enter|exit|iter|next)__|^a(close|iter_stream|read|iter|next)$")
+    for pat, repl in getattr(mod, "SUBS", []):
+        if not asyncish.search(pat):
+            diffs.append(("scripts/unasync.py", 0, f"rule {pat!r} -> {repl!r} does not rewrite an async construct", ""))
     return programs, diffs
 
 
@@ -400,6 +436,10 @@ def run(prop, tier):
             if e["k"] in FAULTS_BY_KIND and (not quick or i % 2 == 0):
                 f = FAULTS_BY_KIND[e["k"]][0]
                 traces.append({"a": script_async(pkw, script, (i, f)), "s": script_sync(pkw, script, (i, f)), "what": ["script", name, [i, f]]})
+            # an exception that is NOT an Exception (what KeyboardInterrupt / a user abort look like) out of a
+            # network operation: both trees clean up alike, and say the same about the pool afterwards
+            if e["k"] in ("read", "write") and (not quick or i % 3 == 0):
+                traces.append({"a": script_async(pkw, script, (i, "HarnessAbort")), "s": script_sync(pkw, script, (i, "HarnessAbort")), "what": ["script", name, [i, "HarnessAbort"]]})
     # 2. establishment: the case matrix with single-failure scripts
     cases = E.all_cases(lambda c: c["tmo"] and c["retries"] in (0, 1) and not c["uds"] and c["phdr"] in ("none", "collide") and c["body"] == (c["phdr"] == "collide"))
     if quick:
